@@ -18,6 +18,17 @@ class UserErr(Exception):
     pass
 
 
+class ReprTuple(tuple):
+    """a record type (NamedTuple-like) that renders itself"""
+    def _repr_html_(self):
+        return "<r>"
+
+
+class ReprStr(str):
+    def _repr_html_(self):
+        return "<r>"
+
+
 def conc_val(v, H, shared=None):
     if v == "dep":
         return shared
@@ -33,6 +44,10 @@ def conc_val(v, H, shared=None):
         return {}
     if v == "emptyset":
         return set()
+    if v == "reprtuple":
+        return ReprTuple((1, 2))
+    if v == "reprstr":
+        return ReprStr("plain <text>")
     if v == "str":
         return "text"
     if v == "num":
@@ -199,7 +214,7 @@ def well_formed_random(rnd, tagnames, maxevents, maxdepth):
     exc = False
     n = 0
     vals = ["str", "num", "zero", "empty", "none", "dots", "repr", "tag", "tfy", "list", "bad", "badlist",
-            "dep", "dep", "depeq", "false", "zerof", "emptyhtml", "emptydict", "emptyset"]
+            "dep", "dep", "depeq", "false", "zerof", "emptyhtml", "emptydict", "emptyset", "reprtuple", "reprstr"]
     BAD = ("bad", "badlist", "emptydict", "emptyset")
     while n < maxevents or stack:
         if exc or n >= maxevents:
